@@ -477,3 +477,54 @@ Example C01_rows_enc_writer_nonvacuous :
       (S (N.to_nat (len (concat [[1; 2; 3]; repeat 5 70])))) [[1; 2; 3]; repeat 5 70] = Ok s /\
     len (ew_out s) = 73 + 2 * 16 /\ ew_ctr s = 2.
 Proof. eexists. split; [vm_compute; reflexivity | split; vm_compute; reflexivity]. Qed.
+
+(* ---------- Tie A level 1, work package readerT (tools/src2v3_reader.py -> gen/Src3d.v): the normal reader re-translated from the source, statement by statement, IS the model's (theories/SrcTie3Reader*.v) ---------- *)
+From MLA Require SrcTie3Reader SrcTie3ReaderRT.
+Check SrcTie3Reader.get_file_sim.
+Theorem C01_tie_get_file_sim : ltac:(let t := type of SrcTie3Reader.get_file_sim in exact t).
+Proof. exact SrcTie3Reader.get_file_sim. Qed.
+Print Assumptions C01_tie_get_file_sim.
+Check SrcTie3Reader.bfr_read_sim.
+Theorem C01_tie_bfr_read_sim : ltac:(let t := type of SrcTie3Reader.bfr_read_sim in exact t).
+Proof. exact SrcTie3Reader.bfr_read_sim. Qed.
+Print Assumptions C01_tie_bfr_read_sim.
+Check SrcTie3Reader.bfr_read_eq.
+Theorem C01_tie_bfr_read_eq : ltac:(let t := type of SrcTie3Reader.bfr_read_eq in exact t).
+Proof. exact SrcTie3Reader.bfr_read_eq. Qed.
+Print Assumptions C01_tie_bfr_read_eq.
+Check SrcTie3Reader.move_to_next_block_sim.
+Theorem C01_tie_move_to_next_block_sim : ltac:(let t := type of SrcTie3Reader.move_to_next_block_sim in exact t).
+Proof. exact SrcTie3Reader.move_to_next_block_sim. Qed.
+Print Assumptions C01_tie_move_to_next_block_sim.
+Check SrcTie3Reader.get_hash_sim.
+Theorem C01_tie_get_hash_sim : ltac:(let t := type of SrcTie3Reader.get_hash_sim in exact t).
+Proof. exact SrcTie3Reader.get_hash_sim. Qed.
+Print Assumptions C01_tie_get_hash_sim.
+Check SrcTie3Reader.list_files_sim.
+Theorem C01_tie_list_files_sim : ltac:(let t := type of SrcTie3Reader.list_files_sim in exact t).
+Proof. exact SrcTie3Reader.list_files_sim. Qed.
+Print Assumptions C01_tie_list_files_sim.
+Check SrcTie3Reader.footer_deserialize_order_src.
+Theorem C01_tie_footer_deserialize_order_src : ltac:(let t := type of SrcTie3Reader.footer_deserialize_order_src in exact t).
+Proof. exact SrcTie3Reader.footer_deserialize_order_src. Qed.
+Print Assumptions C01_tie_footer_deserialize_order_src.
+Check SrcTie3Reader.footer_serialize_into_src.
+Theorem C01_tie_footer_serialize_into_src : ltac:(let t := type of SrcTie3Reader.footer_serialize_into_src in exact t).
+Proof. exact SrcTie3Reader.footer_serialize_into_src. Qed.
+Print Assumptions C01_tie_footer_serialize_into_src.
+Check SrcTie3Reader.footer_serialize_into_unknown_id.
+Theorem C01_tie_footer_serialize_into_unknown_id : ltac:(let t := type of SrcTie3Reader.footer_serialize_into_unknown_id in exact t).
+Proof. exact SrcTie3Reader.footer_serialize_into_unknown_id. Qed.
+Print Assumptions C01_tie_footer_serialize_into_unknown_id.
+Check SrcTie3ReaderRT.read_all_src.
+Theorem C01_tie_read_all_src : ltac:(let t := type of SrcTie3ReaderRT.read_all_src in exact t).
+Proof. exact SrcTie3ReaderRT.read_all_src. Qed.
+Print Assumptions C01_tie_read_all_src.
+Check SrcTie3ReaderRT.get_file_read_all_src.
+Theorem C01_tie_get_file_read_all_src : ltac:(let t := type of SrcTie3ReaderRT.get_file_read_all_src in exact t).
+Proof. exact SrcTie3ReaderRT.get_file_read_all_src. Qed.
+Print Assumptions C01_tie_get_file_read_all_src.
+Check SrcTie3Reader.translated_reader_nonvacuous.
+Theorem C01_tie_translated_reader_nonvacuous : ltac:(let t := type of SrcTie3Reader.translated_reader_nonvacuous in exact t).
+Proof. exact SrcTie3Reader.translated_reader_nonvacuous. Qed.
+Print Assumptions C01_tie_translated_reader_nonvacuous.
